@@ -206,6 +206,11 @@ pub fn c06_e2e(bin: &str, seed: u64, sessions: u64, valgrind_sessions: u64, asan
                 if i >= sessions + valgrind_sessions + asan_sessions {
                     break;
                 }
+                // a tree on which dozens of sessions already failed needs no further sessions, each
+                // of which may wait out every timeout
+                if acc.lock().unwrap().viol.values().map(|v| v.0).sum::<u64>() >= 40 {
+                    break;
+                }
                 let vg = i >= sessions && i < sessions + valgrind_sessions;
                 let use_asan = i >= sessions + valgrind_sessions;
                 let bin: &str = if use_asan { asan.as_ref().map(|a| a.0.as_str()).unwrap_or(bin) } else { bin };
@@ -691,11 +696,16 @@ pub fn c19_e2e(bin: &str, seed: u64, quick: bool) -> (E2eResult, u64, u64) {
 /// own state after its own effects, R01a on every resolve answer.
 pub fn crash_sessions(bin: &str, seed: u64, thorough: bool) -> E2eResult {
     let scripts: Vec<(&'static str, bool)> = vec![("complete", true), ("failed", false), ("pending", true), ("pending", false)];
-    let mut items: Vec<(usize, usize, usize)> = vec![];
+    // (script, HTLCs, RPC index, what happens there: false = the plugin is killed, true = only the
+    // connection carrying that RPC dies, after lightningd executed the command)
+    let mut items: Vec<(usize, usize, usize, bool)> = vec![];
     for (si, _) in scripts.iter().enumerate() {
         for n in if thorough { vec![1usize, 2] } else { vec![1usize] } {
             for k in 0..14 {
-                items.push((si, n, k));
+                items.push((si, n, k, false));
+            }
+            for k in 0..(if thorough { 12 } else { 8 }) {
+                items.push((si, n, k, true));
             }
         }
     }
@@ -709,7 +719,7 @@ pub fn crash_sessions(bin: &str, seed: u64, thorough: bool) -> E2eResult {
                 if i >= items.len() {
                     break;
                 }
-                let (si, n, k) = items[i];
+                let (si, n, k, drop_conn) = items[i];
                 let mut rng = Rng::new(mix(seed, 0xCA5 + i as u64));
                 let height = 3000u32;
                 let opts = json!({"trampoline-mpp-timeout": 5});
@@ -727,7 +737,11 @@ pub fn crash_sessions(bin: &str, seed: u64, thorough: bool) -> E2eResult {
                 s.preimages.insert(hx.clone(), inv.preimage);
                 s.hashes = vec![hx.clone()];
                 s.pay_script = Some(scripts[si]);
-                s.kill_at_rpc = Some(k);
+                if drop_conn {
+                    s.drop_at_rpc = Some(k);
+                } else {
+                    s.kill_at_rpc = Some(k);
+                }
                 let mut ids: Vec<String> = vec![];
                 for (j, am) in amounts.iter().enumerate() {
                     let id = format!("c{j}");
@@ -756,11 +770,40 @@ pub fn crash_sessions(bin: &str, seed: u64, thorough: bool) -> E2eResult {
                     }
                 }
                 let killed = s.killed;
-                let mut node = s.node.clone();
-                let mut viol = std::mem::take(&mut s.node_violations);
-                s.finish();
-                let ctx = format!("script={:?} htlcs={n} kill_at_rpc={k}", scripts[si]);
+                let ctx = format!("script={:?} htlcs={n} {}={k}", scripts[si], if drop_conn { "connection_lost_at_rpc" } else { "kill_at_rpc" });
                 let mut second: Option<Session> = None;
+                let mut viol;
+                let mut node;
+                if drop_conn && !killed {
+                    // same process: after a lost connection every HTLC is still answered ...
+                    let idc2 = ids.clone();
+                    let idr = &idc2;
+                    let wres = s.wait_or_ping(|s| idr.iter().all(|id| s.reply(id).is_some()), Duration::from_secs(20));
+                    if wres == Wait::TooSlow {
+                        acc.lock().unwrap().inconclusive.push("crash session too slow to judge".into());
+                    }
+                    if wres == Wait::Hung || wres == Wait::Died {
+                        acc.lock().unwrap().v("R06c|e2e-unanswered-after-lost-connection", format!("{ctx}: HTLCs not all answered ({wres:?}) although later plain forwards were (mpp 5 s)"));
+                    }
+                    for id in &ids {
+                        if let Some(r) = s.reply(id) {
+                            answered.insert(id.clone(), r.clone());
+                        }
+                    }
+                    // let the bookkeeping writes that follow the answers land
+                    s.pump_for(Duration::from_millis(300));
+                    viol = std::mem::take(&mut s.node_violations);
+                    node = s.node.clone();
+                    if s.dropped {
+                        kills_effective.fetch_add(1, std::sync::atomic::Ordering::Relaxed);
+                    }
+                    // ... and the probes go to this very process (a wedge may live in memory)
+                    second = Some(s);
+                } else {
+                    node = s.node.clone();
+                    viol = std::mem::take(&mut s.node_violations);
+                    s.finish();
+                }
                 if killed {
                     kills_effective.fetch_add(1, std::sync::atomic::Ordering::Relaxed);
                     node.crash();
@@ -855,7 +898,7 @@ pub fn crash_sessions(bin: &str, seed: u64, thorough: bool) -> E2eResult {
                 g.e("R09-e2e", 1);
                 g.e("R05-e2e", 1);
                 g.e("R08a-e2e", 1);
-                g.class(format!("{:?}|killed={killed}", scripts[si]));
+                g.class(format!("{:?}|killed={killed}|connection_lost={}", scripts[si], drop_conn));
                 if !settled {
                     g.v("R09|e2e-wedged", format!("{ctx}: three probes after the history did not settle: {probe_answers:?}; record reads {}", rec_of(&node, &hx)));
                 }
@@ -1151,10 +1194,15 @@ pub fn c20_e2e(bin: &str, seed: u64, sessions: u64, long_sessions: u64) -> E2eRe
 /// (R05) and must settle with the preimage.
 pub fn pay_transport_sessions(bin: &str, seed: u64, slow_secs: &[u64], drops: u64) -> E2eResult {
     let acc = Mutex::new(Acc::new());
+    // (pay keeps running for `arg` seconds?, arg); for dropped-connection sessions arg selects the
+    // variant: even = connection lost after pay was accepted, odd = that and the connection of the
+    // first waitsendpay lost as well (the part settles meanwhile)
     let mut items: Vec<(bool, u64)> = slow_secs.iter().map(|s| (true, *s)).collect();
     for k in 0..drops {
         items.push((false, k));
     }
+    // pay outliving the configured payment timeout (3 s) by several seconds
+    items.push((true, 8));
     let next = std::sync::atomic::AtomicU64::new(0);
     std::thread::scope(|sc| {
         for _ in 0..items.len().min(8).max(1) {
@@ -1166,7 +1214,8 @@ pub fn pay_transport_sessions(bin: &str, seed: u64, slow_secs: &[u64], drops: u6
                 let (slow, arg) = items[i];
                 let mut rng = Rng::new(mix(seed, 0x5107 + i as u64));
                 let height = 4000u32;
-                let mut s = match Session::start(bin, &json!({"trampoline-payment-timeout": 120}), false, height, None) {
+                let pay_timeout = if slow && arg < 30 { 3 } else { 120 };
+                let mut s = match Session::start(bin, &json!({"trampoline-payment-timeout": pay_timeout}), false, height, None) {
                     Ok((Some(s), _)) => s,
                     _ => {
                         acc.lock().unwrap().inconclusive.push("plugin did not start".into());
@@ -1177,7 +1226,7 @@ pub fn pay_transport_sessions(bin: &str, seed: u64, slow_secs: &[u64], drops: u6
                 let hx = hex::encode(inv.hash);
                 s.preimages.insert(hx.clone(), inv.preimage);
                 s.hashes = vec![hx.clone()];
-                s.stuck.push((hx.clone(), if slow { "pay-slow" } else { "pay-drop" }));
+                s.stuck.push((hx.clone(), if slow { "pay-slow" } else if arg % 2 == 1 { "pay-drop-wait-drop" } else { "pay-drop" }));
                 s.send_doc(&hook("x", tramp_request(&inv, 1, 1_005_000, 1_005_000, height + 1100, height)), 0);
                 if slow {
                     // keep pay running; the HTLC must not be answered meanwhile
@@ -1196,11 +1245,22 @@ pub fn pay_transport_sessions(bin: &str, seed: u64, slow_secs: &[u64], drops: u6
                     }
                     let mut g = acc.lock().unwrap();
                     g.e("R02-e2e", 1);
-                    g.class(format!("pay running for {arg}s"));
-                    if let Some(r) = early {
-                        g.v("R02|e2e-answered-while-pay-running", format!("pay had been running for {:?} (of {arg} s) with no answer from lightningd when the HTLC was answered {}", t0.elapsed(), r["result"]));
+                    g.class(format!("pay running for {arg}s (payment timeout {pay_timeout}s)"));
+                    if let Some(r) = &early {
+                        g.v("R02|e2e-answered-while-pay-running", format!("pay had been running for {:?} (of {arg} s, configured payment timeout {pay_timeout} s) with no answer from lightningd when the HTLC was answered {}", t0.elapsed(), r["result"]));
                     }
                     drop(g);
+                    if early.is_some() {
+                        // the sender retries at once: a second pay while the first one is running?
+                        let before = s.pays_seen.len();
+                        s.send_doc(&hook("x-retry", tramp_request(&inv, 2, 1_005_000, 1_005_000, height + 1100, height)), 0);
+                        s.pump_for(Duration::from_millis(2500));
+                        let mut g = acc.lock().unwrap();
+                        g.e("R05-e2e", 1);
+                        if s.pays_seen.len() > before {
+                            g.v("R05|e2e-second-pay-while-first-running", format!("a retry of the failed-back set made the plugin issue pay again while lightningd was still executing the first pay command (running for {:?})", t0.elapsed()));
+                        }
+                    }
                     s.finish_slow_pays();
                     let wres = s.wait_or_ping(|s| s.reply("x").is_some(), Duration::from_secs(10));
                     let mut g = acc.lock().unwrap();
@@ -1215,7 +1275,7 @@ pub fn pay_transport_sessions(bin: &str, seed: u64, slow_secs: &[u64], drops: u6
                     let wres = s.wait_or_ping(|s| s.reply("x").is_some(), Duration::from_secs(15));
                     let mut g = acc.lock().unwrap();
                     g.e("R05-e2e", 1);
-                    g.class("connection lost after pay accepted".into());
+                    g.class(if arg % 2 == 1 { "connection lost after pay accepted, and again on the first waitsendpay".into() } else { "connection lost after pay accepted".into() });
                     let pays = s.pays_seen.len();
                     if pays > 1 {
                         g.v("R05|e2e-pay-reissued-after-transport-error", format!("{pays} pay commands were issued for one attempt: the first had been accepted and its part was still pending"));
